@@ -166,6 +166,7 @@ def check_data_multi(ctx, rng):
                 specs[-1]['verdict'] = verdicts[2]
             obs = {}
             vlog = []
+            vnames = []
             name = [C(b'm'), C(b'x')]
             wire = bytes(make_data(name, MetaInfo(), b'payload', DigestSha256Signer()))
 
@@ -180,6 +181,7 @@ def check_data_multi(ctx, rng):
                     if fe == 'v2':
                         async def v(n, sig, c, j=j, sp=sp):
                             vlog.append(j)
+                            vnames.append([bytes(x) for x in n])
                             if sp['lat']:
                                 await asyncio.sleep(sp['lat'] / 1000)
                             return to_v2(sp['verdict'])
@@ -187,6 +189,7 @@ def check_data_multi(ctx, rng):
                     else:
                         async def v(n, sig, j=j, sp=sp):
                             vlog.append(j)
+                            vnames.append([bytes(x) for x in n])
                             if sp['lat']:
                                 await asyncio.sleep(sp['lat'] / 1000)
                             return sp['verdict']
@@ -216,6 +219,9 @@ def check_data_multi(ctx, rng):
             if S.result != 'ok':
                 ctx.report(f'multi-scenario-{S.result}:{fe}', f'{S.error!r}', w)
                 continue
+            if any(vn != name for vn in vnames):
+                ctx.report(f'validator-given-wrong-name:{fe}', 'a validator was called with a name other than the name of the Data it has to judge',
+                           dict(w, given=[[c.hex() for c in vn] for vn in vnames if vn != name][:2]))
             for j, sp in enumerate(specs):
                 accept = v2_accepts(sp['verdict']) if fe == 'v2' else bool(sp['verdict'])
                 got = obs.get(j)
